@@ -296,7 +296,9 @@ theorem delete_hidden (cls : Cls) (kvs : List (Str × Val)) (q : Pos) (kcls : Cl
         found := slash ++ renderPos (q ++ [Seg.key name]), notFound := Option.none } = .ok (some r1) := by
     simp only [delPlace, isWrap, Res.isFound, Bool.and_self, if_true, (e.keyIdxTok hn).split, hname, Bool.false_eq_true, if_false, hr1]
   unfold delete deleteTokens
-  simp only [htok, hlen]
+  simp only [show stripQ (slash ++ renderPos q ++ slash ++ (name ++ bracket e.text))
+      = slash ++ renderPos q ++ slash ++ (name ++ bracket e.text) by
+    apply stripQ_noQ; simp [slash, startsWith, List.append_assoc], htok, hlen]
   rw [deleteLoop, htake, hwalk]
   simp only [hgetD, hdp, Bool.true_or, if_true, hdt]
   -- the remaining prefixes are prefixes of the plain path of `name`
